@@ -349,15 +349,21 @@ def r17_4(ctx: Ctx) -> None:
     term_w = [c.args[0].value for c in q.calls(w) if attr_tail(c) == "write" and c.args and isinstance(c.args[0], ast.Constant)]
     ctx.check(reads == [2] and term_r == [b"\x00\x00"] and term_w == [b"\x00\x00"], "R17.4", r, r.node, "2-byte units and 2-byte zero terminator on both sides",
               f"unit/terminator disagree: reader reads {reads}, stops at {term_r}; writer terminates with {term_w}", construct="utf16 unit/terminator")
-    # loop bound
-    try:
-        ml = ctx.ce.module_const("archiveinfo", "MAX_LENGTH")
-    except NotConst:
-        ml = None
+    # a name of ANY length is read back whole: the unit loop ends only at the terminator (or with an error).  A counted loop that can
+    # run out (`for _ in range(MAX_LENGTH)`) must raise when it does; falling out of it silently cuts the name and hands the rest to the
+    # next member (the writer sets no limit)
     loops = [n for n in walk(r.node) if isinstance(n, (ast.For, ast.While))]
-    bounded = bool(loops) and isinstance(loops[0], ast.For) and isinstance(loops[0].iter, ast.Call) and dotted(loops[0].iter.func) == "range"
-    ctx.check(ml is not None and ml >= 2 * 4096 and bounded, "R17.4", r, loops[0] if loops else r.node, "unit loop is a bounded for-range with MAX_LENGTH >= 8192",
-              "read_utf16's unit loop is not a bounded `for _ in range(MAX_LENGTH)` with MAX_LENGTH >= 8192 (names up to 4096 characters)", construct="read_utf16 loop bound")
+    ctx.need(bool(loops), "unit loop of read_utf16 not found")
+    lp = loops[0]
+    if isinstance(lp, ast.For):
+        exhausted_raises = bool(lp.orelse) and any(isinstance(x, ast.Raise) for st in lp.orelse for x in ast.walk(st))
+        ctx.check(exhausted_raises, "R17.4", r, lp, "a counted unit loop raises when it runs out before the terminator",
+                  "read_utf16's unit loop is bounded (`for _ in range(MAX_LENGTH)`) and falls through when the bound is reached: a name of 65536 or more UTF-16 units - which "
+                  "write_utf16 writes without complaint - is cut silently and the following member is named by the leftover", construct="read_utf16 loop bound")
+    else:
+        ok_while = isinstance(lp.test, ast.Constant) and lp.test.value is True and any(isinstance(x, ast.Break) for x in ast.walk(lp)) and any(isinstance(x, ast.Raise) for x in ast.walk(lp))
+        ctx.check(ok_while, "R17.4", r, lp, "the unit loop ends at the terminator or raises at the end of the data",
+                  "read_utf16's unit loop has neither a terminator exit nor an end-of-data error", construct="read_utf16 loop bound")
     # the accumulator appends every non-terminator unit
     ok = any(isinstance(n, ast.AugAssign) and isinstance(n.op, ast.Add) for n in walk(r.node))
     ctx.check(ok, "R17.4", r, r.node, "every unit is accumulated", "read_utf16 does not accumulate every unit", construct="utf16 accumulate")
@@ -433,6 +439,7 @@ def r17_6(ctx: Ctx) -> None:
 
 
 def run(ctx: Ctx) -> None:
+    shared.layout_agreement(ctx, "R17.10")
     from . import c06 as _c06
     _c06.r06_13(ctx, rule="R17.9")
     r17_1(ctx)
